@@ -1020,7 +1020,6 @@ package scipipe
 //@ func (*Sink).Run(p)
 //@   props C05
 //@   modifies chan, cells
-//@   atmakechan fresh-chan: chanRecvN($ch) == 0 && chanSentN($ch) == 0 && !chanClosed($ch)
 //@   atcall builtin.close all-tokens-taken[C05]: $arg0 == merged && chanRecvN(merged) == ite(p.inPorts["sink_in"].ready, 1, 0) + ite(p.inParamPorts["param_sink_in"].ready, 1, 0)
 //@   ensures waits-for-every-drainer[C05]: chanRecvN(merged) == ite(p.inPorts["sink_in"].ready, 1, 0) + ite(p.inParamPorts["param_sink_in"].ready, 1, 0)
 //@   ensures merged-unbuffered[C05]: chanCap(merged) == 0
